@@ -585,6 +585,9 @@ func (c *Ctx) sentinelNilReturn(p *errProducer) (string, bool) {
 			}
 			if call, ok := cond.(*ssa.Call); ok && truth {
 				q := calleeQ(&call.Call)
+				if q == "errors.Is" && call.Call.Args[0] == p.Val && c.isGlobal(call.Call.Args[1], "io", "EOF") && strings.Contains(p.What, "bufio.Reader") {
+					why = "io.EOF from a line reader ends the stage cleanly"
+				}
 				if q == "errors.Is" && call.Call.Args[0] == p.Val {
 					if c.isGlobal(call.Call.Args[1], "io/fs", "ErrNotExist", "os", "ErrNotExist") && strings.Contains(p.What, "os.Lstat") {
 						why = "fs.ErrNotExist from the Lstat of the shallow marker means a full clone"
